@@ -761,8 +761,10 @@ def c06_k(ctx: Ctx):
 @rule("C06-l")
 def c06_l(ctx: Ctx):
     """Index builders treat every job independently: nothing read while indexing one job was computed for another."""
-    from .lints import per_item_loops, late_binding_in_loops
-    return late_binding_in_loops(ctx, "C06-l", ("signac._search_indexer", "signac.project")) + per_item_loops(ctx, "C06-l", [
+    from .lints import per_item_loops, late_binding_in_loops, no_stamp_validated_cache
+    return no_stamp_validated_cache(ctx, "C06-l", ("signac._search_indexer", "signac.project", "signac.job"),
+                                    "find_jobs keeps answering from the old document / state point") + \
+        late_binding_in_loops(ctx, "C06-l", ("signac._search_indexer", "signac.project")) + per_item_loops(ctx, "C06-l", [
         ("signac.project:Project._build_index", "a job without (readable) document is indexed with the previous job's document, so doc.* filters depend on which other jobs exist and on the listing order"),
         (IDX + ":_SearchIndexer.build_index", "a job lacking the key is filed under the previous job's value"),
         ("signac.project:Project._find_job_ids", "the result depends on which other jobs exist"),
@@ -776,6 +778,25 @@ def c06_m(ctx: Ctx):
     res = c08_g(ctx)
     for r in res:
         r.rule = "C06-m"
+    # ... and its own *whole* document: what is filed under 'doc' is the decoded document file, not a projection chosen by a second reading of the filter
+    R = "C06-m"
+    bi = ctx.fn("signac.project:Project._build_index")
+    k = bi.qual + "|whole-document"
+    docsets = [n for n in body_nodes(bi) if isinstance(n, ast.Assign) and any(isinstance(t, ast.Subscript) and ctx.fold(t.slice, bi) == "doc" for t in n.targets)]
+    if not docsets:
+        res.append(ctx.inc(R, bi, bi.node, "_build_index does not file the job document under 'doc'", construct=k))
+    for a in docsets:
+        srcs = [a.value] if not isinstance(a.value, ast.Name) else [d for d in common.reaching_defs(ctx, bi, a.value.id, a)]
+        proj = [d for d in srcs if isinstance(d, (ast.DictComp, ast.Dict)) or (isinstance(d, ast.Call) and isinstance(d.func, ast.Name) and d.func.id in ("dict", "filter"))]
+        whole = [d for d in srcs if isinstance(d, ast.Call) and ((common.ext_name(ctx, bi, d) or "") in ("json.loads", "json.load") or any(not t.module.is_dep for t in common.targets_of_funcs(ctx, bi, d)))]
+        if proj:
+            res.append(ctx.viol(R, bi, a, f"the search index receives a projection of the job document ({canon(proj[0])[:60]}) instead of the document: which keys survive is decided by a "
+                                "second parser of the filter, and spellings it reads differently from the evaluator (e.g. {'doc': {'a.b': 1}}) make every job look as if the key were missing",
+                                construct=k))
+        elif whole and len(whole) == len(srcs):
+            res.append(ctx.ok(R, bi, a, "the decoded document file is filed under 'doc' as a whole", construct=k))
+        else:
+            res.append(ctx.inc(R, bi, a, "origin of the value filed under 'doc' not recognised", construct=k))
     return res
 
 
